@@ -234,7 +234,8 @@ Section Sim.
     if fin then
       if Z.eqb (a_err a') ACT_ESUCCESS then
         exists s1, srel s1 d' (advance a') store' /\ frame (advance a') /\
-                   after (resid (a_exec a)) s o (resid (a_exec (advance a'))) s1
+                   after (resid (a_exec a)) s o (resid (a_exec (advance a'))) s1 /\
+                   (exists e1 r1, a_exec a' = e1 :: r1 /\ c_processing e1 = false)     (* the finished statement left its flag clear *)
       else o = [] /\ resid (a_exec a) s [] s Fail
     else a_exec a' <> [] /\ exists s1, srel s1 d' a' store' /\ frame a' /\ after (resid (a_exec a)) s o (resid (a_exec a')) s1.
 
@@ -280,11 +281,12 @@ Section Sim.
       cur_resid e x s o s1 Done ->
       ss_args s1 = get_args store' a' -> ss_xm s1 = model_xm d' ->
       exists s1', srel s1' d' (advance a') store' /\ frame (advance a') /\
-                  after (resid (a_exec a)) s o (resid (a_exec (advance a'))) s1'.
+                  after (resid (a_exec a)) s o (resid (a_exec (advance a'))) s1' /\
+                  (exists e2 r2, a_exec a' = e2 :: r2 /\ c_processing e2 = false).
     Proof.
       intros Hx Ea' Eb Ep Epl Hpl Hcl Herr' Hcom Hargs' Hdiag' Hdone Hsa Hsx.
       destruct (advance_fields a') as (F1 & F2 & F3 & F4).
-      exists s1. split; [|split].
+      exists s1. split; [|split; [|split; [|exists e1, rest; split; [exact Ea'|exact (proj1 Hcl)]]]].
       - split; [rewrite Hsa; symmetry; apply get_args_same; exact F3|right; exact Hsx].
       - unfold frame. rewrite F1, F2, F3, F4, Hcom, Hargs', Hdiag'. split; [exact Hrg|]. split; [|split; [exact Herr'|split; [|split; assumption]]].
         + apply (advance_ctx_ok a' e1 rest Ea' Hcl Hpl); [|exact Hrest].
@@ -376,7 +378,8 @@ Section Sim.
     Lemma step_post_fin d' a' store' evs : sd_plugs d' = sd_plugs d ->
       sent_of (step_obs now d true a' store' evs) = raw_sent evs -> a_err a' = ACT_ESUCCESS ->
       (exists s1, srel s1 d' (advance a') store' /\ frame (advance a') /\
-                  after (resid (a_exec a)) s (step_obs now d true a' store' evs) (resid (a_exec (advance a'))) s1) ->
+                  after (resid (a_exec a)) s (step_obs now d true a' store' evs) (resid (a_exec (advance a'))) s1 /\
+                  (exists e1 r1, a_exec a' = e1 :: r1 /\ c_processing e1 = false)) ->
       step_post now d a s true d' a' store' evs.
     Proof. intros Hp Hb He H. unfold step_post. rewrite He, Z.eqb_refl. split; [exact Hp|split; [exact Hb|exact H]]. Qed.
     Lemma step_post_fail d' a' store' evs : sd_plugs d' = sd_plugs d -> raw_sent evs = [] -> a_err a' = ACT_EEXPFAIL ->
@@ -933,7 +936,7 @@ Section Sim.
   Proof.
     intros Haft H. unfold step_post in *. cbv zeta in *. destruct H as (Hp & Hb & H). split; [exact Hp|]. split; [exact Hb|]. destruct fin.
     - destruct (Z.eqb (a_err a') ACT_ESUCCESS).
-      + destruct H as (s1 & H1 & H2 & H3). exists s1. split; [exact H1|]. split; [exact H2|].
+      + destruct H as (s1 & H1 & H2 & H3 & H4). exists s1. split; [exact H1|]. split; [exact H2|]. split; [|exact H4].
         exact (after_trans _ _ [] _ _ _ _ _ Haft H3).
       + destruct H as (Ho & Hf). split; [exact Ho|]. exact (Haft [] s Fail Hf).
     - destruct H as (Hn & s1 & H1 & H2 & H3). split; [exact Hn|]. exists s1. split; [exact H1|]. split; [exact H2|].
@@ -1057,7 +1060,7 @@ Section Sim.
     destruct Hg1 as (Hdg & Hdp & _ & _).
     unfold step_post in Hstep. cbv zeta in Hstep. destruct Hstep as (Hpl & Hby & Hstep). destruct fin; cbn [negb].
     - destruct (Z.eqb (a_err a') ACT_ESUCCESS).
-      + destruct Hstep as (s1 & Hs' & Hfr & Haft').
+      + destruct Hstep as (s1 & Hs' & Hfr & Haft' & _).
         pose proof (after_trans _ _ _ _ _ _ _ _ Haft Haft') as Haft2.
         destruct (a_exec (advance a')) as [|e2 r2] eqn:Ea.
         * eexists Completed, d', (advance a'), store', _, evs1. split; [reflexivity|]. split; [|exact Hby].
